@@ -32,7 +32,9 @@ PROP = "C20"
 # the model's key / value names are instantiated from these pools, a different assignment per case
 KEYPOOL = [b"a", b"", b"k\x00\xff", b"key-" + bytes(range(48, 78)), b"\x80", b"b", b"\xff" * 3, b"None"]
 VALPOOL = [b"", b"v", b"\x00\x00\x00", bytes(range(256)), b"None", b"x" * 1000]
-NBPOOL = ["text", 7, None, [b"x"], 1.5, ("t",), {"a": 1}, True]     # values that are not byte strings
+import array as _array
+# values that are not byte strings (bytes-like objects that are not bytes / bytearray included: a view or an array is not a string)
+NBPOOL = ["text", 7, None, [b"x"], 1.5, ("t",), {"a": 1}, True, memoryview(b"mv"), _array.array("B", [1, 2]), memoryview(bytearray(b"w"))]
 TRACE_KEYS, TRACE_VALS = 5, 3          # universe of the trace spec (random histories use all of it)
 CONSTS = "CONSTANTS Keys = {1,2,3,4,5}\nVals = {1,2,3}\n"
 MC_CONSTS = "CONSTANTS Keys = {1,2,3}\nVals = {1,2}\n"
